@@ -30,6 +30,13 @@ type vFaultyReaderAt struct {
 func (f *vFaultyReaderAt) ReadAt(p []byte, off int64) (int, error) {
 	if vsym.Bool("fault.readat") {
 		f.nfault++
+		// a failing ReaderAt may deliver some bytes together with its error (io.ReaderAt contract)
+		if len(p) > 1 && vsym.Bool("fault.readat.partial") {
+			k := vsym.Int("fault.readat.n")
+			vsym.Assume(vsym.And(k >= 1, k < len(p)))
+			n, _ := f.r.ReadAt(p[:k], off)
+			return n, io.ErrClosedPipe
+		}
 		return 0, io.ErrClosedPipe
 	}
 	return f.r.ReadAt(p, off)
